@@ -24,8 +24,15 @@ Flow:
      recognisers of c02_syntax.py (and expat for XML); REAL batteries (huge,
      tiny, subnormal, infinite, random bit patterns).
 
-Generator exclusions are the documented predicates of c02_gen.py; each is a
-recorded finding replayed in step 2.
+Modules: the fixed fixture module of c02_gen.py (every construct of the text
+codecs at least once: DEFAULT/OPTIONAL/addition group, the three XER
+list-element forms, recursion through SEQUENCE OF and through an OPTIONAL
+member, named and fixed-size BIT STRING, REAL) plus random modules from
+gen_asn1.py extended with REAL.  Generator exclusions are the documented
+predicates of c02_gen.py; each is a recorded finding replayed in step 2.
+On a tree without the XER REAL repair the check reports the failures (with a
+time limit for the non-terminating encoder) and stops the REAL batteries after
+a dozen reports.
 """
 import json
 import math
@@ -630,9 +637,9 @@ def run(ctx):
     ok = ctx.coq_props()
     ctx.log('Props/C02.v: %s' % ('all obligations discharged' if ok else 'BROKEN'))
     run_known_findings(ctx, common.load_findings('C02'))
-    corr(ctx, 10 if ctx.quick else 120)
+    corr(ctx, 10 if ctx.quick else 100)
     ctx.log('correspondence done')
-    pt(ctx, 30 if ctx.quick else 700)
+    pt(ctx, 30 if ctx.quick else 500)
     pt_reals(ctx, 400 if ctx.quick else 20000)
     if not ok:
         common.proof_broken(ctx)
